@@ -28,6 +28,7 @@ import (
 	"seehuhn.de/go/postscript"
 	"seehuhn.de/go/postscript/funit"
 	"seehuhn.de/go/postscript/pfb"
+	"seehuhn.de/go/postscript/psenc"
 )
 
 // Read reads a Type 1 font from a reader.
@@ -288,11 +289,12 @@ creationDateLoop:
 	}
 
 	for _, seac := range ctx.seacs {
-		if seac.base < 0 || len(encoding) <= seac.base || seac.accent < 0 || len(encoding) <= seac.accent {
+		// the character codes of seac refer to the standard encoding, whatever encoding the font has
+		if seac.base < 0 || seac.base > 255 || seac.accent < 0 || seac.accent > 255 {
 			continue
 		}
-		base := glyphs[encoding[byte(seac.base)]]
-		accent := glyphs[encoding[byte(seac.accent)]]
+		base := glyphs[psenc.StandardEncoding[seac.base]]
+		accent := glyphs[psenc.StandardEncoding[seac.accent]]
 		if base == nil || accent == nil {
 			continue
 		}
